@@ -31,7 +31,7 @@ ASSUMPTIONS = [
 ]
 
 
-def scenario() -> Any:
+def scenario(big: bool = False) -> Any:
     def fin(d: Dict[str, Any]) -> Dict[str, Any]:
         d["msgs"] = cm.sort_msgs(d["msgs"])
         for m in d["msgs"]:
@@ -58,10 +58,10 @@ def scenario() -> Any:
     msg = cm.message(kinds=("async",), outs=("ret", "ret", "ValueError"), acks=("sync", "sync", "async", "future", "deferred"),
                      durs=(0.0, 0.05, 0.3, 1.0, 4.0, "never"), at=cm.times(60), cleanups=(0, 0, 0, 0.2), timeouts=(None, None, None, 0.3))
     return st.fixed_dictionaries({
-        "A": st.integers(1, 3), "P": st.integers(0, 2),
-        "N": st.sampled_from([None, None, 1, 2, 3, 4]),
+        "A": st.integers(1, 5 if big else 3), "P": st.integers(0, 4 if big else 2),
+        "N": st.sampled_from([None, None, 1, 2, 3, 4] + ([6, 9] if big else [])),
         "W": st.sampled_from([None, None, 0, 0.5, 2.0, 5.0]),
-        "msgs": st.lists(msg, min_size=0, max_size=7),
+        "msgs": st.lists(msg, min_size=0, max_size=12 if big else 7),
         "stop": cm.times(60), "has_stop": st.booleans(),
         "staggered": st.fixed_dictionaries({"on": st.sampled_from([False, False, False, True]), "k": st.integers(1, 3),
                                             "never": st.booleans(), "stop": st.sampled_from([0.05, 0.3, 0.35])}),
@@ -70,7 +70,7 @@ def scenario() -> Any:
 
 def parts(tier: str) -> List[Part]:
     if tier == "thorough":
-        return [Part("scenarios", "given", shards=16, examples=4000, strategy=scenario, soft_deadline_s=2400)]
+        return [Part("scenarios", "given", shards=16, examples=9000, strategy=lambda: scenario(True), soft_deadline_s=3600)]
     return [Part("scenarios", "given", shards=12, examples=250, strategy=scenario, soft_deadline_s=150)]
 
 
